@@ -89,7 +89,7 @@ TextPairs(lay, flt, o) ==
            <<A_BEGINDATA, ZPad(FV(flt, "t_db", o.db), 8)>>, <<A_ENDDATA, ZPad(FV(flt, "t_de", o.de), 8)>> >>
    ELSE <<>>)
   \o << <<A_BYTEORD, BoStr(lay.bo)>>, <<A_DATATYPE, OneChar(lay.dt)>>, <<A_MODE, OneChar(lay.mode)>>,
-        <<A_NEXTDATA, A_ZERO>>, <<A_PAR, ZPad(FV(flt, "par", Len(lay.widths)), 4)>>,
+        <<A_NEXTDATA, DigitsOf(lay.nx)>>, <<A_PAR, ZPad(FV(flt, "par", Len(lay.widths)), 4)>>,
         <<A_TOT, ZPad(FV(flt, "tot", lay.N), 4)>> >>
   \o ParPairs(lay, flt)
 
@@ -162,7 +162,7 @@ S0(f, rbits) ==
   [pc |-> "Header", why |-> "-", f |-> f, rbits |-> rbits, v3 |-> FALSE,
    tb |-> 0, te |-> 0, db |-> 0, de |-> 0, ab |-> 0, ae |-> 0, delim |-> 0,
    text |-> {}, D |-> 0, widths |-> <<>>, dt |-> "-", big |-> FALSE, N |-> 0,
-   begin |-> 0, end |-> 0, data |-> <<>>, warn |-> FALSE, an |-> {}, anwarn |-> FALSE]
+   begin |-> 0, end |-> 0, data |-> <<>>, warn |-> FALSE, an |-> {}, anwarn |-> FALSE, nxwarn |-> FALSE]
 Refuse(s, why) == [s EXCEPT !.pc = "Refused", !.why = why]
 
 StepHeader(s) ==
@@ -232,8 +232,10 @@ StepByteord(s) ==
        IF b \notin {A_BO4321, A_BO21, A_BO1234, A_BO12} THEN Refuse(s, "byteord-unsupported")
        ELSE [s EXCEPT !.pc = "NextData", !.big = b \in {A_BO4321, A_BO21}]
 
+(* a non-zero $NEXTDATA (further data sets in the file) is only warned about: the first data set is read *)
 StepNextData(s) ==
-  IF ~GetInt(s.text, A_NEXTDATA).ok THEN Refuse(s, "nextdata") ELSE [s EXCEPT !.pc = "Analysis"]
+  LET n == GetInt(s.text, A_NEXTDATA) IN
+  IF ~n.ok THEN Refuse(s, "nextdata") ELSE [s EXCEPT !.pc = "Analysis", !.nxwarn = (n.v # 0)]
 
 (* ANALYSIS parse errors are swallowed; only the TEXT keyword lookups can refuse *)
 ReadAnalysis(s, b, e) ==            \* try: read_fcs_text_segment(...) except Exception: warn, {}
@@ -325,7 +327,9 @@ RECURSIVE Run(_)
 Run(s) == IF Terminal(s) THEN s ELSE Run(Step(s))
 
 (* the outcome in the vocabulary the harness projects to *)
-OutcomeOf(s) == IF s.pc = "Refused" THEN [k |-> "refused", why |-> s.why, N |-> 0, D |-> 0, data |-> <<>>, text |-> {}, an |-> {}]
-                ELSE [k |-> "ok", why |-> "-", N |-> s.N, D |-> s.D, data |-> s.data, text |-> s.text, an |-> s.an]
+OutcomeOf(s) == IF s.pc = "Refused" THEN [k |-> "refused", why |-> s.why, N |-> 0, D |-> 0, data |-> <<>>, text |-> {}, an |-> {},
+                                              nxwarn |-> FALSE, anwarn |-> FALSE]
+                ELSE [k |-> "ok", why |-> "-", N |-> s.N, D |-> s.D, data |-> s.data, text |-> s.text, an |-> s.an,
+                      nxwarn |-> s.nxwarn, anwarn |-> s.anwarn]
 ReadFile(f, rbits) == OutcomeOf(Run(S0(f, rbits)))
 =============================================================================
